@@ -69,10 +69,11 @@ static std::shared_ptr<Column> make_column(const std::string& file, const int c,
 }
 
 static int failed_rows(const std::string& log) {
-  const std::string k = "Failed comparisons (for column) : ";
-  const auto p = log.find(k);
-  if (p == std::string::npos) return -1;
-  return std::atoi(log.c_str() + p + k.size());
+  for (const std::string k : {"Failed comparisons (for column) : ", "Failed comparisons count (for column) : "}) {
+    const auto p = log.find(k);
+    if (p != std::string::npos) return std::atoi(log.c_str() + p + k.size());
+  }
+  return -1;
 }
 
 static std::unique_ptr<Comparison> make_cmp(const std::string& k) {
